@@ -246,7 +246,7 @@ struct ModuleState {
 }
 
 /// Runs the ported `transform()` loops of all modules under the seeded scheduler.
-fn run_l1(sc: &E1Scenario, plan: &L1Plan, inst: &mut Instance, rep: &mut RunReport) -> Vec<Call> {
+pub fn run_l1(sc: &E1Scenario, plan: &L1Plan, inst: &mut Instance, rep: &mut RunReport) -> Vec<Call> {
     let mut calls: Vec<Call> = Vec::new();
     let mut sched = Rng::new(plan.sched_seed);
     let mut cur_version: Vec<usize> = sc.files.iter().map(|_| 0).collect();
